@@ -139,12 +139,18 @@ def startsLit : List Tok → Bool
 def startsIdent : List Tok → Bool
   | .ident _ :: _ => true
   | _ => false
+/-- the first token is an integer or float literal: the literals a free-standing `-` is the sign of
+    (`is_numeric_literal` in parser.rs, `Lit.isNumeric` in the model) -/
+def startsNum : List Tok → Bool
+  | .lit l :: _ => l.isNumeric
+  | _ => false
 
 /-- `d` directly followed by the tokens `rest` is not glued to them: the symbol `-` is not followed
-    by a literal, the symbol `:` not by a literal or an identifier. -/
+    by a NUMERIC literal (integer or float; before a string or character literal it is the symbol
+    `-`), the symbol `:` not by a literal or an identifier. -/
 def sepOk : Doc → List Tok → Bool
   | .psym [c], rest =>
-    if c == 45 then !startsLit rest
+    if c == 45 then !startsNum rest
     else if c == 58 then !startsLit rest && !startsIdent rest
     else true
   | _, _ => true
@@ -177,9 +183,10 @@ end
       others in `isIdPunct`; a punctuation keyword `pkw cs` is non-empty with all characters in
       `isIdPunct`;
     * in a list or vector, an element that is the lone symbol `-` is not directly followed by an
-      element whose first token is a literal (number, string or character: the macro parser negates
-      whatever literal follows), and the lone symbol `:` is not directly followed by an element whose
-      first token is a literal or an identifier (`sepOk`);
+      element whose first token is a numeric literal (integer or float: the macro parser takes the
+      `-` for its sign; a string or character literal may follow, `(- "s")` is the symbol `-` and a
+      string), and the lone symbol `:` is not directly followed by an element whose first token is
+      a literal or an identifier (`sepOk`);
     * no element of a list (vectors are exempt) is the lone symbol `.`: `parse_list` takes it
       for the dot;
     * the last element (before `)` or before the dot) has nothing glued to it, so `sepOk` asks
@@ -286,7 +293,9 @@ theorem parse_psym (f : Nat) (cs : List UInt8) (rest : List Tok) (hwf : wf (.psy
     · simp only [h45, ↓reduceIte] at hsep ⊢
       match rest, hsep with
       | [], _ => rfl
-      | .lit _ :: _, hsep => simp [startsLit] at hsep
+      | .lit l :: _, hsep =>
+        have hl : l.isNumeric = false := by simpa [startsNum] using hsep
+        simp only [hl, Bool.false_eq_true, ↓reduceIte]
       | .punct _ _ :: _, _ => rfl
       | .ident _ :: _, _ => rfl
       | .group _ _ :: _, _ => rfl
@@ -327,6 +336,15 @@ theorem parse_pkw (f : Nat) (cs : List UInt8) (rest : List Tok) (hwf : wf (.pkw 
 
 /-! ## Lemmas on the side conditions -/
 
+/-- what does not start with a literal does not start with a numeric literal -/
+theorem startsNum_of_startsLit {ts : List Tok} (h : startsLit ts = false) : startsNum ts = false := by
+  match ts, h with
+  | [], _ => rfl
+  | .lit _ :: _, h => simp [startsLit] at h
+  | .punct _ _ :: _, _ => rfl
+  | .ident _ :: _, _ => rfl
+  | .group _ _ :: _, _ => rfl
+
 theorem sepOk_append (x : Doc) (a fol : List Tok) (h : sepOk x a = true)
     (hf : a = [] → startsLit fol = false ∧ startsIdent fol = false) :
     sepOk x (a ++ fol) = true := by
@@ -335,14 +353,15 @@ theorem sepOk_append (x : Doc) (a fol : List Tok) (h : sepOk x a = true)
     obtain ⟨h1, h2⟩ := hf rfl
     unfold sepOk
     split
-    · simp [h1, h2]
+    · simp [h1, h2, startsNum_of_startsLit h1]
     · rfl
   | cons t a =>
     unfold sepOk at h ⊢
     split
     · rename_i c r
       simp only [] at h
-      cases t <;> first | (simp [startsLit, startsIdent]; done) | simpa [startsLit, startsIdent] using h
+      cases t <;> first | (simp [startsLit, startsIdent, startsNum]; done) |
+        simpa [startsLit, startsIdent, startsNum] using h
     · rfl
 
 theorem toks_head (x : Doc) (hwf : wf x = true) :
@@ -356,7 +375,7 @@ theorem toks_head (x : Doc) (hwf : wf x = true) :
   | c :: d :: cs, _ => exact ⟨_, _, by simp only [toks, punctRun]; rfl, fun _ => rfl⟩
 
 theorem sepOk_nil (x : Doc) : sepOk x [] = true := by
-  unfold sepOk; split <;> simp [startsLit, startsIdent]
+  unfold sepOk; split <;> simp [startsLit, startsIdent, startsNum]
 
 theorem asc_f_t : (asc "f" == asc "t") = false := by decide
 theorem asc_nil_t : (asc "nil" == asc "t") = false := by decide
@@ -621,6 +640,55 @@ example : toks (.list [.psym [45], .int 5]) = toks (.list [.negInt 5]) ∧
   refine ⟨rfl, ?_, by decide⟩
   simp [mv, mvL]
 
+/-- the same with a float: `(- 1.5)` and `(-1.5)` are the same token stream -/
+example : toks (.list [.psym [45], .float 15 (-1)]) = toks (.list [.negFloat 15 (-1)]) ∧
+    mv (.list [.psym [45], .float 15 (-1)]) ≠ mv (.list [.negFloat 15 (-1)]) ∧
+    wf (.list [.psym [45], .float 15 (-1)]) = false := by
+  refine ⟨rfl, ?_, by decide⟩
+  simp [mv, mvL]
+
+/-- **The remaining `-` condition is necessary**: the tokens of `(- 5)` are read as the negative
+    literal, so the inversion statement is false for this tree (which `wf` rejects); the same in a
+    vector and with a float. -/
+theorem minus_before_number_witness (env : Tok → Value) :
+    wf (.list [.psym [45], .int 5]) = false ∧
+    parse 3 (toks (.list [.psym [45], .int 5])) = some (.list [.negated (.int 5)], []) ∧
+    parse 3 (toks (.list [.psym [45], .int 5])) ≠ some (mv (.list [.psym [45], .int 5]), []) ∧
+    expand env (toks (.list [.psym [45], .int 5])) = some (Value.list [.number (.neg (-5))]) ∧
+    wf (.vec [.psym [45], .float 15 (-1)]) = false ∧
+    parse 3 (toks (.vec [.psym [45], .float 15 (-1)])) =
+      some (.vector [.negated (.float 15 (-1))], []) := by
+  refine ⟨by decide, ?_, ?_, ?_, by decide, ?_⟩
+  · simp [toks, toksL, punctRun, parse, parseList, isSymPunct, Lit.isNumeric]
+  · simp [toks, toksL, punctRun, parse, parseList, isSymPunct, Lit.isNumeric, mv, mvL]
+  · simp [expand, toks, toksL, punctRun, parse, parseList, isSymPunct, Lit.isNumeric, eval, evalAll,
+      litValue, Value.list, Value.append, Number.ofSigned]
+  · simp [toks, toksL, punctRun, parse, parseOctothorpe, parseVector, isSymPunct, Lit.isNumeric]
+
+/-- **Since the repair 509396b** a free-standing `-` before a string or character literal is the
+    symbol `-`: `(- "s")`, `(- 'a')` and `(- "s" 1)` are well formed and the parser reads them as
+    lists that start with the symbol `-` (computed on the explicit token lists, no theorem used). -/
+theorem minus_before_string_tokens (env : Tok → Value) :
+    expand env [.group true [.punct 45 .alone, .lit (.str (asc "s") (asc "s"))]] =
+      some (Value.list [.symbol [45], .string (asc "s")]) ∧
+    expand env [.group true [.punct 45 .alone, .lit (.char 97)]] =
+      some (Value.list [.symbol [45], .char 97]) ∧
+    expand env [.group true [.punct 45 .alone, .lit (.str (asc "s") (asc "s")), .lit (.int 1)]] =
+      some (Value.list [.symbol [45], .string (asc "s"), .number (.pos 1)]) ∧
+    expand env [.punct 35 .alone, .group true [.punct 45 .alone, .lit (.char 97)]] =
+      some (.vector [.symbol [45], .char 97]) := by
+  refine ⟨?_, ?_, ?_, ?_⟩ <;>
+    simp [expand, parse, parseList, parseOctothorpe, parseVector, isSymPunct, Lit.isNumeric, eval,
+      evalAll, litValue, Number.ofSigned]
+
+/-- `(- "s")`, `(- 'a')`, `(- "s" 1)`, `#(- 'a')`, `(- "s" . 'a')`: covered by `wf` now -/
+theorem minus_before_string_wf :
+    wf (.list [.psym [45], .str (asc "s") (asc "s")]) = true ∧
+    wf (.list [.psym [45], .chr 97]) = true ∧
+    wf (.list [.psym [45], .str (asc "s") (asc "s"), .int 1]) = true ∧
+    wf (.vec [.psym [45], .chr 97]) = true ∧
+    wf (.dotted [.psym [45], .str (asc "s") (asc "s")] (.chr 97)) = true := by decide
+
 /-- `(: name)` and `(:name)` are the same token stream. -/
 example : toks (.list [.psym [58], .sym (asc "name")]) = toks (.list [.ckw (asc "name")]) ∧
     mv (.list [.psym [58], .sym (asc "name")]) ≠ mv (.list [.ckw (asc "name")]) ∧
@@ -636,6 +704,13 @@ example : toks (.list [.sym (asc "a"), .psym [46], .sym (asc "b")]) =
 /-- without the side condition the requested inversion statement is false: `: 5` is a parse error
     (`ExpectedStringLiteral`), although `:` and `5` are both documented values -/
 example : parseList 10 (toksL [.psym [58], .int 5]) [] none = none := by
+  simp only [toksL, toks, punctRun, List.cons_append, List.nil_append]
+  rw [parseList_cons_notDot _ _ _ _ _ rfl]
+  simp [parse, isSymPunct, stringLiteral]
+
+/-- the `:` condition cannot be confined to string literals and identifiers the way the `-`
+    condition is confined to numbers: `: 'a'` is a parse error as well -/
+example : parseList 10 (toksL [.psym [58], .chr 97]) [] none = none := by
   simp only [toksL, toks, punctRun, List.cons_append, List.nil_append]
   rw [parseList_cons_notDot _ _ _ _ _ rfl]
   simp [parse, isSymPunct, stringLiteral]
@@ -832,6 +907,22 @@ example : parse 1 (toks (.psym [45]) ++ [.punct 45 .alone, .lit (.int 1)]) =
     some (.symbol [45], [.punct 45 .alone, .lit (.int 1)]) :=
   C09_parse_inverts_toks (.psym [45]) 1 _ (by decide) (by decide) (by decide)
 
+/-- the symbol `-` directly before a string literal (`sepOk` holds: the literal is not numeric) -/
+example (rest : List Tok) :
+    parse 1 (toks (.psym [45]) ++ .lit (.str (asc "s") (asc "s")) :: rest) =
+      some (.symbol [45], .lit (.str (asc "s") (asc "s")) :: rest) :=
+  C09_parse_inverts_toks (.psym [45]) 1 _ (by decide) (by decide) rfl
+
+/-- `(- "s")` and `(- 'a')` through `C09_parse_inverts_toks` -/
+example (rest : List Tok) :
+    parse 4 (toks (.list [.psym [45], .str (asc "s") (asc "s")]) ++ rest) =
+      some (.list [.symbol [45], .literal (.str (asc "s") (asc "s"))], rest) :=
+  C09_parse_inverts_toks _ 4 rest (by decide) (by decide) rfl
+example (rest : List Tok) :
+    parse 4 (toks (.list [.psym [45], .chr 97]) ++ rest) =
+      some (.list [.symbol [45], .literal (.char 97)], rest) :=
+  C09_parse_inverts_toks _ 4 rest (by decide) (by decide) rfl
+
 example (rest : List Tok) : parse 4 (toks (.vec [.psym [46], .psym [45]]) ++ rest) =
     some (.vector [.symbol [46], .symbol [45]], rest) :=
   C09_parse_inverts_toks_any_rest _ 4 rest (by decide) (by decide) (by intro c h; cases h)
@@ -890,6 +981,26 @@ example (env : Tok → Value) : expand env (toks exampleDoc) = some (valueOf env
 
 example (env : Tok → Value) : expand env (toks exampleDoc) = some (valueOf env exampleDoc) :=
   C09_expand_small env exampleDoc exampleDoc_wf (by decide)
+
+/-- **`(- "s")`, `(- 'a')`, `(- "s" 1)` through `C09_expand`**: the two- and three-element lists
+    that start with the symbol `-` -/
+theorem C09_expand_minus_before_string (env : Tok → Value) :
+    expand env (toks (.list [.psym [45], .str (asc "s") (asc "s")])) =
+      some (Value.list [.symbol [45], .string (asc "s")]) ∧
+    expand env (toks (.list [.psym [45], .chr 97])) =
+      some (Value.list [.symbol [45], .char 97]) ∧
+    expand env (toks (.list [.psym [45], .str (asc "s") (asc "s"), .int 1])) =
+      some (Value.list [.symbol [45], .string (asc "s"), .number (.pos 1)]) := by
+  refine ⟨?_, ?_, ?_⟩
+  · rw [C09_expand env _ (by decide) (by decide)]; simp [valueOf, valueOfL]
+  · rw [C09_expand env _ (by decide) (by decide)]; simp [valueOf, valueOfL]
+  · rw [C09_expand env _ (by decide) (by decide)]; simp [valueOf, valueOfL, Number.ofSigned]
+
+/-- `(- "s" . ,e)` through `C09_unquote_expand` -/
+example (env : Tok → Value) (e : Tok) :
+    expand env (toks (.dotted [.psym [45], .str (asc "s") (asc "s")] (.unq e))) =
+      some (.cons (.symbol [45]) (.cons (.string (asc "s")) (env e))) :=
+  C09_unquote_expand env [.psym [45], .str (asc "s") (asc "s")] e (by decide) (by decide)
 
 /-- the documented identities `(1 2 3) = (1 . (2 . (3 . ()))) = (1 2 . (3 . ()))` hold for the
     macro values already, hence for the expansions -/
